@@ -146,17 +146,7 @@ def _r1_r3(ck: Checker, prog: Program):
         ck.ok(P + "R1", fq, "vertical component and arguments are not written", detail=f"{len(s.effects)} effects, all on ns/ew/orientation/meta")
     for e in vt + other:
         ck.violation(P + "R1", fq, e.site.text, f"orient_sensor_to writes {e.origin}: the vertical must stay untouched", loc=e.site.loc)
-    # constructor normalises the stored orientation into [0, 360)
-    init = prog.func("seismic_recording_3c.SeismicRecording3C.__init__")
-    st = [x for x in own_nodes(init.node) if isinstance(x, ast.Assign) and unparse(x.targets[0]) == "self.degrees_from_north"]
-    TT = Translator()
-    if len(st) == 1:
-        g = TT.tr(st[0].value)
-        d0 = TT.sym("degrees_from_north")
-        if equal(g, sp.Function("float")(d0 - 360 * sp.floor(d0 / 360))) or equal(g, d0 - 360 * sp.floor(d0 / 360)):
-            ck.ok(P + "R1", init.qualname, norm_key(st[0]), detail="orientation reduced modulo 360")
-        else:
-            ck.violation(P + "R1", init.qualname, norm_key(st[0]), f"stored orientation is {g}, expected d - 360*floor(d/360)", loc=init.loc(st[0]))
+
 
 
 def _orientation_carried(ck: Checker, prog: Program):
@@ -396,6 +386,34 @@ def _r5(ck: Checker, prog: Program):
         ck.violation(P + "R5", fq, pr[:100], "RotDpp: " + pr, loc=b.func.loc(b.record_loop))
 
 
+def _orientation_guard(prog: Program, f, lp: ast.For, rec: str):
+    """One pass of the per-record loop over the two worlds of the configured target (None / given): the record is oriented
+    exactly when a target is given (0 is a target), and to that target.  Returns (guard ok, argument ok)."""
+    from ..pathtable import PathTable, consistent
+    F = sp.Function
+    SET, REC, NONE = sp.Symbol("settings", real=True), sp.Symbol("<record>", real=True), sp.Symbol("None")
+    ORI = F("attr_orient_to_degrees_from_north")(SET)
+    top = [l for l in PathTable(prog, f.module, structured=True, unroll=True).leaves(f.node.body) if id(lp) in l.snaps]
+    if not top:
+        raise AnalysisError(f"{f.qualname}: the per-record loop is not reached")
+    env = dict(top[0].snaps[id(lp)][0])
+    env[rec] = REC
+    leaves = [l for l in PathTable(prog, f.module, env=env, structured=True, unroll=True).leaves(lp.body) if l.exit in ("fall", "continue")]
+    ok_g = ok_a = True
+    for world in ({ORI: NONE}, {ORI: sp.Symbol("'<given>'")}):
+        live = [l for l in leaves if consistent(l, world)]
+        if not live:
+            raise AnalysisError(f"{f.qualname}: no pass of the per-record loop for {world}")
+        for l in live:
+            calls = [e[2] for e in l.events if e[0] == "call" and getattr(getattr(e[2], "func", None), "__name__", "") == "orient_sensor_to"]
+            if bool(calls) != (world[ORI] != NONE):
+                ok_g = False
+            for c_ in calls:
+                if len(c_.args) != 2 or c_.args[0] != REC or c_.args[1] != ORI:
+                    ok_a = False
+    return ok_g, ok_a
+
+
 def _r6(ck: Checker, prog: Program):
     for fq in ("preprocessing.hvsr_preprocess", "preprocessing.psd_preprocess"):
         f = prog.func(fq)
@@ -413,8 +431,7 @@ def _r6(ck: Checker, prog: Program):
         while not isinstance(st, ast.stmt):
             st = parent_of(st)
         g = parent_of(st)
-        ok_g = isinstance(g, ast.If) and unparse(g.test) == "settings.orient_to_degrees_from_north is not None" and not g.orelse and parent_of(g) is lp
-        ok_a = unparse(c.func.value) == rec and len(c.args) == 1 and unparse(c.args[0]) == "settings.orient_to_degrees_from_north"
+        ok_g, ok_a = _orientation_guard(prog, f, lp, rec)
         # first method call on the record in the iteration
         first = True
         for other in calls_in(lp):
